@@ -188,6 +188,10 @@ class SwSock(object):
     return ("127.0.0.1", 6633)
 
 
+class _Chan(object):
+  """one switch and its control channel"""
+
+
 # --------------------------------------------------------------------------
 # DHCP frames, struct only
 
@@ -346,17 +350,37 @@ class Net(object):
       del dc.OpenFlowDHCPClient
     # -- the switch
     self.dpid = dpid
-    self.sw = swmod.SoftwareSwitch(dpid, ports=nports, max_buffers=max_buffers, miss_send_len=miss_send_len)
-    self.worker = IOWorker()
-    self.worker.socket = SwSock()
-    self.ofc = swmod.OFConnection(self.worker)
-    self.sw.set_connection(self.ofc)
-    self.emits = []
-    self.sw.addListenerByName("DpPacketOut", self._on_out)
-    self.sock = CtlSock()
+    self.chans = []
+    self.nports, self.max_buffers, self.miss_send_len = nports, max_buffers, miss_send_len
+    ch = self.add_switch(dpid)
+    self.sw, self.worker, self.ofc, self.sock = ch.sw, ch.worker, ch.ofc, ch.sock
     self.con = None
     self.c2s = []
     self.s2c = []
+
+  def add_switch(self, dpid):
+    """another real SoftwareSwitch behind its own control channel (the second scenario: a real DHCPD serves the
+    client through a second switch)"""
+    ch = _Chan()
+    ch.dpid = dpid
+    ch.sw = swmod.SoftwareSwitch(dpid, ports=self.nports, max_buffers=self.max_buffers,
+                                 miss_send_len=self.miss_send_len)
+    ch.worker = IOWorker()
+    ch.worker.socket = SwSock()
+    ch.ofc = swmod.OFConnection(ch.worker)
+    ch.sw.set_connection(ch.ofc)
+    ch.emits = []
+    ch.sw.addListenerByName("DpPacketOut", lambda e, c=ch: c.emits.append((e.port.port_no, e.packet.pack())))
+    ch.sock = CtlSock()
+    ch.con = None
+    self.chans.append(ch)
+    return ch
+
+  def connect_chan(self, ch):
+    ch.con = of_01.Connection(ch.sock)
+    self._pump()
+    if self.nexus.getConnection(ch.dpid) is not ch.con or ch.con.connect_time is None:
+      raise Machinery("switch %s did not complete the handshake" % ch.dpid)
 
   # -- timers
   def kind_of(self, t):
@@ -382,9 +406,6 @@ class Net(object):
         continue
       out.append((self.kind_of(t), t._next - clock.now))
     return out
-
-  def _on_out(self, e):
-    self.emits.append((e.port.port_no, e.packet.pack()))
 
   def _vselect(self, r, w, x, timeout):
     ro, wo, xo = _select.select(list(r), list(w), list(x), 0)
@@ -421,32 +442,35 @@ class Net(object):
 
   # -- control channel
   def connect(self):
-    self.con = of_01.Connection(self.sock)
-    self._pump()
-    if self.nexus.getConnection(self.dpid) is not self.con or self.con.connect_time is None:
-      raise Machinery("switch did not complete the handshake")
+    self.connect_chan(self.chans[0])
+    self.con = self.chans[0].con
 
   def _pump(self):
-    if self.con is None:
-      return
+    """move the bytes both ends of every control channel wrote until all are quiet; the first switch's channel
+    (the client's) is tapped"""
     rounds = 0
     c2s_raw = b""
     s2c_raw = b""
     while True:
       moved = False
-      if self.sock.out:
-        data, self.sock.out = self.sock.out, b""
-        c2s_raw += data
-        self.worker._push_receive_data(data)
-        moved = True
-      if self.worker.send_buf:
-        data, self.worker.send_buf = self.worker.send_buf, b""
-        s2c_raw += data
-        self.sock.inq.append(data)
-        while self.sock.inq:
-          if self.con.read() is False:
-            raise Machinery("controller dropped the connection")
-        moved = True
+      for i, ch in enumerate(self.chans):
+        if ch.con is None:
+          continue
+        if ch.sock.out:
+          data, ch.sock.out = ch.sock.out, b""
+          if i == 0:
+            c2s_raw += data
+          ch.worker._push_receive_data(data)
+          moved = True
+        if ch.worker.send_buf:
+          data, ch.worker.send_buf = ch.worker.send_buf, b""
+          if i == 0:
+            s2c_raw += data
+          ch.sock.inq.append(data)
+          while ch.sock.inq:
+            if ch.con.read() is False:
+              raise Machinery("controller dropped the connection")
+          moved = True
       if not moved:
         break
       rounds += 1
@@ -460,8 +484,8 @@ class Net(object):
   def take(self):
     """everything observed since the last take"""
     self._pump()
-    r = dict(c2s=self.c2s, s2c=self.s2c, emits=self.emits, faults=list(FAULTS), fired=self.fired)
-    self.c2s, self.s2c, self.emits, self.fired = [], [], [], []
+    r = dict(c2s=self.c2s, s2c=self.s2c, emits=self.chans[0].emits, faults=list(FAULTS), fired=self.fired)
+    self.c2s, self.s2c, self.chans[0].emits, self.fired = [], [], [], []
     del FAULTS[:]
     return r
 
